@@ -25,8 +25,15 @@ def main():
     status = "ok"
     reach = None
     try:
+        from . import inject as _inj
+        _inj.EnvTaint.install()
+        if os.environ.get("VP_NO_OSSL_RIPEMD") == "1":
+            _inj.no_openssl_ripemd160()
         load_repo()
         ctx.extra["backend"] = backend()
+        ctx.extra["interpreter_configurations"] = ["optimize=%d hashseed=%s openssl_ripemd160=%s%s" % (
+            sys.flags.optimize, os.environ.get("PYTHONHASHSEED", "random"), "no" if os.environ.get("VP_NO_OSSL_RIPEMD") == "1" else "yes",
+            (" env=" + os.environ["VP_EXTRA_ENV"]) if os.environ.get("VP_EXTRA_ENV") else "")]
         from . import inject
         reach = inject.Reach().start()
         mod = importlib.import_module("vpkg.checks." + a.prop.lower())
@@ -46,6 +53,11 @@ def main():
             ctx.extra["functions_entered"] = reach.stop()
         except Exception:  # noqa
             pass
+    try:
+        from . import inject as _inj2
+        ctx.extra["environment_variables_looked_up_by_repo_code"] = list(_inj2.EnvTaint.names)
+    except Exception:  # noqa
+        pass
     res = ctx.result()
     res["status"] = status
     tmp = a.out + ".tmp"
